@@ -21,7 +21,7 @@ func TestMain(m *testing.M) {
 	if p := os.Getenv(childEnv); p != "" {
 		os.Exit(childMain(p)) // a case judged alone in a fresh process (hist.go)
 	}
-	kit.TestMain(m, 1200, 8000)
+	kit.TestMain(m, 1200, 5000) // thorough: 16 shards x 5000 (8000 took 2638 s on an idle machine, too close to the 2400 s shard limit)
 }
 
 // Case is one generated input: a description of a package (plain data) that Build() turns into bytes.
